@@ -103,6 +103,10 @@ def _sweeten_op(model, cname, op, data):
             data = collections.OrderedDict(data)
             data[op[1]] = M.WORDS[v]
         return data
+    if k == 'mapping_to_scalar' and isinstance(data, dict):
+        if all(n in data for n in op[1]):
+            return op[2].join(str(data[n]) for n in op[1])
+        return data
     if k == 'enum_lower' and isinstance(data, str):
         return data.lower()
     raise ValueError('no plain model for sweeten op %r' % (op,))
